@@ -195,17 +195,19 @@ func (w *hijackWatch) receive() {
 			if !ok {
 				return
 			}
-			asts, ok := event.Object.(*asv1.StatefulSet)
-			if !ok {
-				panic("unreachable")
-			}
-			sts, err := ToBuiltinStatefulSet(asts)
-			if err != nil {
-				panic(err)
+			// payloads that are not StatefulSets (e.g. the *metav1.Status of an
+			// Error event) are relayed unchanged
+			object := event.Object
+			if asts, ok := object.(*asv1.StatefulSet); ok {
+				sts, err := ToBuiltinStatefulSet(asts)
+				if err != nil {
+					panic(err)
+				}
+				object = sts
 			}
 			w.result <- watch.Event{
 				Type:   event.Type,
-				Object: sts,
+				Object: object,
 			}
 		}
 	}
